@@ -163,9 +163,24 @@ static void dim_pair(int nin, int nout, int t, int bb, bool noisy) {
     delete_LweSample(in); delete_LweSample(out); free_ks(K);
 }
 
+// histories: a key switch with layout A, then with layout B in the same thread (every ordered pair of the ten layouts): B must be exact
+static void layout_histories() {
+    std::vector<Layout> all = {{8, 2}, {1, 1}, {31, 1}, {15, 2}, {16, 1}, {10, 3}, {7, 4}, {6, 5}, {3, 8}, {3, 10}, {4, 4}, {2, 8}, {5, 6}};
+    for (size_t a = 0; a < all.size(); a++) for (size_t b = 0; b < all.size(); b++) { if (a == b) continue;
+        std::string key = fmt("layout-history/(%d,%d)-then-(%d,%d)", all[a].t, all[a].bb, all[b].t, all[b].bb);
+        if (!take(key)) continue; if (deadline()) return; current(key);
+        KS *A = make_ks(1, 8, all[a].t, all[a].bb, false, 0, 21), *B = make_ks(1, 8, all[b].t, all[b].bb, false, 0, 22);
+        LweSample *in = new_LweSample(A->pin), *oa = new_LweSample(A->pout), *ob = new_LweSample(B->pout); int64_t sr = 0; bool ok = true; uint64_t x = a * 100 + b;
+        for (int rep = 0; rep < 24 && ok; rep++) { uint32_t v = rep < 8 ? (uint32_t)splitmix(x) : rep < 16 ? (0x80000000u >> (rep - 8)) - 1 : (1u << (31 - all[b].t * all[b].bb)) * (uint32_t)(rep - 15);
+            ok = check_one(A, key, in, oa, v ^ 0x5a5a5a5a, &sr) && check_one(B, key, in, ob, v, &sr); }
+        eval(48); nontrivial(1); outcome(mix(a, b)); delete_LweSample(in); delete_LweSample(oa); delete_LweSample(ob); free_ks(A); free_ks(B);
+    }
+    sample("layout-history/(8,2)-then-(4,4): one thread key-switches with (t,basebit)=(8,2) and then with (4,4) (same t*basebit): both exact");
+}
+
 int main(int argc, char **argv) {
     init(argc, argv);
-    if (opt("part", "all") != "dims") sweeps();
+    if (opt("part", "all") != "dims") { layout_histories(); sweeps(); }
     if (opt("part", "all") != "sweeps") {
         std::vector<int> nins = quick() ? std::vector<int>{1, 2, 7, 8, 9, 1024} : std::vector<int>{1, 2, 7, 8, 9, 1024, 2048};
         std::vector<int> nouts = quick() ? std::vector<int>{1, 3, 7, 8, 9, 500} : std::vector<int>{1, 3, 7, 8, 9, 500, 630};
